@@ -63,7 +63,7 @@ Proof.
   - now inversion H.
   - destruct (is_nil _); [discriminate|].
     destruct (take_names ds) as [[asg ds1]|t]; cbn [res_bind] in H; [|discriminate].
-    destruct (negb _); [discriminate|].
+    destruct (negb _); [discriminate|]. destruct (negb _); [discriminate|].
     apply IH in H. now rewrite assign_v_length in H.
 Qed.
 
